@@ -1098,7 +1098,9 @@ class Evaluator:
                         return Unknown('dict comprehension with symbolic key')
                     out[k.v] = self.expr(n.value, e2, fr)
                 return DictV([out])
-        if isinstance(n, ast.ListComp):
+        if isinstance(n, (ast.ListComp, ast.GeneratorExp)):
+            # a generator over finite iterables is consumed once by its user (unpacking, tuple(), join, ...):
+            # its element sequence is the list comprehension's
             out = []
 
             def rec(gi, e):
@@ -1625,6 +1627,9 @@ class Evaluator:
         if name == 'getattr' and len(a) == 3 and isinstance(a[1], Const) and isinstance(a[0], Tup) \
                 and a[1].v not in ('T', 'size', 'shape', 'ndim', 'dtype'):
             return a[2]            # a plain sequence/ndarray has no such attribute: the default applies
+        if name == 'getattr' and len(a) == 3 and isinstance(a[1], Const) and is_num(a[0]) and not _has_unit(a[0]) \
+                and a[1].v in ('value', 'unit', 'to', 'to_value'):
+            return a[2]            # a plain number (not declared a Quantity) has no such attribute
         if name == 'getattr' and len(a) >= 2 and isinstance(a[1], Const):
             return self.attr(a[0], a[1].v, fr)
         if name == 'hasattr' and len(a) == 2 and isinstance(a[1], Const) and isinstance(a[0], Tup):
